@@ -112,6 +112,47 @@ def intercept_violations(prop, tier, scratch, harness, seed):
     return out, rep["stat"].get("calls", 0)
 
 
+def hang_violations(prop, tier, scratch, harness, seed, only_cases=None):
+    """C09 on the proxy path: a call that finishes when made directly must finish through larking too (gRPC and HTTP
+    fronts), and nothing may crash.  Scripts whose client waits for the backend's first word are C10's known finding."""
+    rnd = random.Random(seed + 9)
+    cases = only_cases if only_cases is not None else [c for c in build_cases(scratch, rnd, "quick") if not c["wait"]]
+    cpath, trace = scratch.path("hcases.jsonl"), scratch.path("htrace.ndjson")
+    with open(cpath, "w") as f:
+        for c in cases:
+            f.write(json.dumps(c) + "\n")
+    p, _ = C.run([harness, "proxy", "-cases", cpath, "-out", trace, "-seed", str(seed)], timeout=3000)
+    if p.returncode != 0:
+        raise C.Infra("proxy driver failed:\n" + p.stdout[-3000:])
+    by_id = {c["id"]: c for c in cases}
+    out = {}
+    n = 0
+    for line in open(trace):
+        ev = json.loads(line)
+        n += 1
+        s = ev["s"]
+        bad = []
+        if ev["crash"]:
+            bad.append(("NoCrash", "proxied", ev["crash"][:200]))
+        if not ev["direct"]["hang"]:
+            if ev["proxied"]["hang"]:
+                bad.append(("NoHang", "grpc front", "no status after 4 s; direct: code %s" % ev["direct"]["code"]))
+            if ev["hashttp"] and ev["http"]["hang"]:
+                bad.append(("NoHang", "http front", "no response after 4 s; direct: code %s" % ev["direct"]["code"]))
+            if ev["hashttp"] and ev["http"]["err"].startswith("panic"):
+                bad.append(("NoCrash", "http front", ev["http"]["err"][:200]))
+        for formula, front, desc in bad:
+            key = (formula, front, s["shape"], s["mode"])
+            if key in out:
+                out[key]["more"] += 1
+                continue
+            out[key] = dict(property=prop, formula=formula, seed=seed, cases=[by_id[s["id"]]], observed=ev, more=0, replay_driver="proxy",
+                            signature=dict(module="Proxy", formula=formula, shape=s["shape"], front=front),
+                            what="%s: proxied %s %s call (n=%d readN=%d replies=%d failAt=%s failK=%d code=%d), %s: %s" % (
+                                formula, s["shape"], s["mode"], s["n"], s["readN"], s["replyJ"], s["failAt"], s["failK"], s["code"], front, desc))
+    return out, n
+
+
 def run(prop, tier, replay=None):
     t0 = time.time()
     seed = C.seed()
